@@ -2,16 +2,17 @@
    The executable model itself is in Prim.v (primitive codecs), PL.v (parameter-list layer),
    Qos.v (QosPolicies) and Disc.v (discovery data types). *)
 From Coq Require Import List ZArith Lia Bool.
-From RD Require Import Common.Corr C15.Prim C15.PL C15.Qos.
+From RD Require Import Common.Corr C15.Prim C15.PL C15.Qos C15.Disc.
 Import ListNotations.
 Open Scope Z_scope.
 
 (* the values that travel *)
 Inductive value :=
-| VQos (q : qos).
+| VQos (q : qos)
+| VSpdp (s : spdp).
 
-Inductive kind := KQos.
-Definition kind_of (v : value) : kind := match v with VQos _ => KQos end.
+Inductive kind := KQos | KSpdp.
+Definition kind_of (v : value) : kind := match v with VQos _ => KQos | VSpdp _ => KSpdp end.
 
 (* CVal: serialise v (to_pl_cdr_bytes / to_parameter_list + serialize_to_bytes), deserialise the
          bytes, and deserialise again after inserting the foreign parameters `ins`
@@ -30,11 +31,14 @@ Definition omap {A B} (f : A -> B) (o : outcome A) : outcome B :=
   match o with Ok a => Ok (f a) | Err => Err | OutOfFuel => OutOfFuel end.
 
 Definition to_params (e : endian) (v : value) : list param :=
-  match v with VQos q => qos_to_params e q end.
+  match v with VQos q => qos_to_params e q | VSpdp s => spdp_to_params e s end.
 Definition encode (e : endian) (v : value) (ins : list (nat * param)) : list Z :=
   enc_pl e (insert_all ins (to_params e v)).
 Definition decode (e : endian) (k : kind) (bs : list Z) : outcome value :=
-  match k with KQos => omap VQos (decode_qos e bs) end.
+  match k with
+  | KQos => omap VQos (decode_qos e bs)
+  | KSpdp => omap VSpdp (decode_spdp e bs)
+  end.
 
 Definition run (c : case) : obs :=
   match c with
@@ -72,11 +76,22 @@ Proof.
           | apply ownership_eq_dec | apply liveliness_eq_dec | apply reliability_eq_dec
           | apply dest_order_eq_dec | apply history_eq_dec | apply resource_limits_eq_dec].
 Defined.
+Definition bytes_eq_dec (a b : list Z) : {a = b} + {a <> b} := list_eq_dec Z.eq_dec a b.
+Definition pair_eq_dec (a b : Z * Z) : {a = b} + {a <> b}.
+Proof. decide equality; apply Z.eq_dec. Defined.
+Definition locator_eq_dec (a b : locator) : {a = b} + {a <> b}.
+Proof. decide equality; first [apply Z.eq_dec | apply bytes_eq_dec]. Defined.
+Definition spdp_eq_dec (a b : spdp) : {a = b} + {a <> b}.
+Proof.
+  decide equality;
+    first [apply Z.eq_dec | apply bytes_eq_dec | apply pair_eq_dec | apply Bool.bool_dec
+          | apply (list_eq_dec locator_eq_dec) | apply (option_eq_dec duration_eq_dec)
+          | apply (option_eq_dec Z.eq_dec) | apply (option_eq_dec bytes_eq_dec)].
+Defined.
 Definition value_eq_dec (a b : value) : {a = b} + {a <> b}.
-Proof. decide equality; apply qos_eq_dec. Defined.
+Proof. decide equality; first [apply qos_eq_dec | apply spdp_eq_dec]. Defined.
 Definition outcome_eq_dec {A} (d : forall a b : A, {a = b} + {a <> b}) (a b : outcome A) : {a = b} + {a <> b}.
 Proof. decide equality. Defined.
-Definition bytes_eq_dec (a b : list Z) : {a = b} + {a <> b} := list_eq_dec Z.eq_dec a b.
 Definition obs_eq_dec (a b : obs) : {a = b} + {a <> b}.
 Proof. decide equality; first [apply (outcome_eq_dec value_eq_dec) | apply bytes_eq_dec]. Defined.
 
@@ -101,11 +116,36 @@ Definition qos_okb (q : qos) : bool :=
         (q_resource_limits q) &&
   oallb duration_okb (q_lifespan q).
 
-Definition value_okb (v : value) : bool := match v with VQos q => qos_okb q end.
-Definition value_ok (v : value) : Prop := match v with VQos q => qos_ok q end.
+Definition locator_okb (l : locator) : bool :=
+  match l with
+  | LInvalid | LReserved => true
+  | LUdpV4 a b c d port => u16_okb port
+  | LUdpV6 addr port flowinfo scope_id => (len addr =? 16) && u16_okb port && (flowinfo =? 0) && (scope_id =? 0)
+  | LOther kind port addr =>
+      i32_okb kind && negb (kind =? -1) && negb (kind =? 0) && negb (kind =? 1) && negb (kind =? 2) &&
+      u32_okb port && (len addr =? 16)
+  end.
+Definition pstring_okb (s : list Z) : bool := utf8_valid s && (len s <=? 65527).
+Definition spdp_okb (v : spdp) : bool :=
+  (len (sp_participant_guid v) =? 16) &&
+  forallb locator_okb (sp_metatraffic_unicast_locators v) &&
+  forallb locator_okb (sp_metatraffic_multicast_locators v) &&
+  forallb locator_okb (sp_default_unicast_locators v) &&
+  forallb locator_okb (sp_default_multicast_locators v) &&
+  u32_okb (sp_available_builtin_endpoints v) &&
+  oallb duration_okb (sp_lease_duration v) &&
+  i32_okb (sp_manual_liveliness_count v) &&
+  oallb u32_okb (sp_builtin_endpoint_qos v) &&
+  oallb pstring_okb (sp_entity_name v).
+
+Definition value_okb (v : value) : bool :=
+  match v with VQos q => qos_okb q | VSpdp s => spdp_okb s end.
+Definition value_ok (v : value) : Prop :=
+  match v with VQos q => qos_ok q | VSpdp s => spdp_ok s end.
 
 (* the parameter ids the deserialiser of each kind looks at *)
-Definition known_pids (k : kind) : list Z := match k with KQos => qos_pids end.
+Definition known_pids (k : kind) : list Z :=
+  match k with KQos => qos_pids | KSpdp => spdp_pids end.
 
 (* a foreign parameter: id fits, is not the sentinel, is not looked at, value fits the length field *)
 Definition foreign_okb (k : kind) (p : param) : bool :=
@@ -133,8 +173,26 @@ Definition qos_defaults_okb (ab : Z -> bool) (q : qos) : bool :=
   implb' (ab PID_RESOURCE_LIMITS) (is_none (q_resource_limits q)) &&
   implb' (ab PID_LIFESPAN) (is_none (q_lifespan q)).
 
+Definition is_nil {A} (l : list A) : bool := match l with [] => true | _ => false end.
+
+(* SpdpDiscoveredParticipantData: expects_inline_qos = false, manual_liveliness_count = 0,
+   empty locator lists, None *)
+Definition spdp_defaults_okb (ab : Z -> bool) (v : spdp) : bool :=
+  implb' (ab PID_EXPECTS_INLINE_QOS) (negb (sp_expects_inline_qos v)) &&
+  implb' (ab PID_PARTICIPANT_MANUAL_LIVELINESS_COUNT) (sp_manual_liveliness_count v =? 0) &&
+  implb' (ab PID_METATRAFFIC_UNICAST_LOCATOR) (is_nil (sp_metatraffic_unicast_locators v)) &&
+  implb' (ab PID_METATRAFFIC_MULTICAST_LOCATOR) (is_nil (sp_metatraffic_multicast_locators v)) &&
+  implb' (ab PID_DEFAULT_UNICAST_LOCATOR) (is_nil (sp_default_unicast_locators v)) &&
+  implb' (ab PID_DEFAULT_MULTICAST_LOCATOR) (is_nil (sp_default_multicast_locators v)) &&
+  implb' (ab PID_PARTICIPANT_LEASE_DURATION) (is_none (sp_lease_duration v)) &&
+  implb' (ab PID_BUILTIN_ENDPOINT_QOS) (is_none (sp_builtin_endpoint_qos v)) &&
+  implb' (ab PID_ENTITY_NAME) (is_none (sp_entity_name v)).
+
 Definition defaults_okb (ab : Z -> bool) (v : value) : bool :=
-  match v with VQos q => qos_defaults_okb ab q end.
+  match v with
+  | VQos q => qos_defaults_okb ab q
+  | VSpdp s => spdp_defaults_okb ab s
+  end.
 
 (* The property oracle, on observables only.
    - a well-formed value comes back unchanged, also with foreign parameters interleaved;
